@@ -750,8 +750,8 @@ def replay_samples(p, cap):
 
 
 def fd_consistent(p, cap, xd):
-    """At the returned design: do the Jacobian callbacks agree with central differences of the
-    corresponding value callbacks?  (Only used to attribute a non-optimal 'success'.)"""
+    """At design xd (the certified optimum): do the Jacobian callbacks agree with central differences
+    of the corresponding value callbacks?  (Only used to attribute a non-optimal 'success'.)"""
     drv = p.driver
     cons = cap.kw.get('constraints') or []
     xd = np.array(xd, dtype=float)
@@ -837,7 +837,12 @@ def run_one(case, scal, dry=False):
             res['result_id'] = cap.xid(xd)
             # which of these two designs is the model at (driver units, own scaling formula)?
             xmd = np.array([float(v) for v in scale_x(case, scal, [unrat(v) for v in res['x_model']])])
-            res['model_at'] = [i for i in sorted({res['last_obj_id'], res['result_id']})
+            # candidates: last objective design, result.x, and (a driver whose callbacks run the model
+            # themselves) the design of the last callback of any kind
+            cand = {res['last_obj_id'], res['result_id']}
+            if cap.log:
+                cand.add(cap.log[-1][2])
+            res['model_at'] = [i for i in sorted(cand)
                                if np.allclose(cap.xs[i], xmd, rtol=1e-9, atol=1e-9)]
             try:
                 res['samples'] = replay_samples(p, cap)
@@ -859,7 +864,9 @@ def run_one(case, scal, dry=False):
                     xs = [float(unrat(v)) for v in case['cert']['x']]
                     xm = [float(unrat(v)) for v in res['x_model']]
                     if max(abs(a - b) for a, b in zip(xs, xm)) > TOL_OPTIMUM:
-                        res['fd_consistent'] = fd_consistent(p, cap, xd)
+                        # judged at the certified optimum (a well-scaled design; result.x may be
+                        # a diverged point where differences are meaningless in floats)
+                        res['fd_consistent'] = fd_consistent(p, cap, probes[1])
             except Infra:
                 raise
             except Exception as e:
@@ -1728,7 +1735,7 @@ class C21(Property):
                        '%d predicted by the model' % (s['k'], s['kind'], s['arg'], pred)
         if not r.get('trace_truncated') and trace_a['final'] not in r['model_at']:
             return 'where the model is left: model predicts design %s, the implementation is at %s ' \
-                   '(last objective design %s, result.x %s)' % (
+                   '(candidates: last objective design %s, result.x %s, last callback)' % (
                        trace_a['final'], r['model_at'], r['last_obj_id'], r['result_id'])
         return None
 
